@@ -42,7 +42,7 @@ def run_e1(prop, tier):
     names = PROPS[prop].get('e1', [])
     if not names:
         return None
-    timeout_ms = 30000 if tier == 'quick' else 180000
+    timeout_ms = 60000 if tier == "quick" else 240000
     t0 = time.time()
     res = engine.verify_many(names, timeout_ms=timeout_ms, repo_root=REPO)
     return dict(results=res, seconds=time.time() - t0)
